@@ -27,6 +27,12 @@ fn emit_case(out: &mut dyn Write, o: &Opts, c: &Case, hist: &mut BTreeMap<String
     progress(&format!("{:?}", c));
     let oc = run_case(c);
     writeln!(out, "{}", case_line(o.flags, c, &oc.resp)).unwrap();
+    if o.flags.contains('r') && o.flags.contains('a') && c.modes != 0 {
+        // C02: the Lean model of the encoder, run on the plan the implementation used
+        if let Some(l) = encrun_line(c, &oc) {
+            writeln!(out, "{}", l).unwrap();
+        }
+    }
     if oc.panicked {
         note(hist, "outcome_panic");
     } else if oc.dm.is_none() {
@@ -379,4 +385,55 @@ pub fn gen_prune(out: &mut dyn Write, seed: u64, thorough: bool) {
     }
     writeln!(out, "# prune_calls_recorded {}", calls).unwrap();
     writeln!(out, "# longest_candidate_list {}", maxlen).unwrap();
+}
+
+/// encoder model vs implementation on *arbitrary* plans (plan-injection hook): mutated versions of
+/// the optimiser's plan, including plans the encoder cannot follow (assertions, unreachable!())
+pub fn gen_badplans(out: &mut dyn Write, seed: u64, thorough: bool) {
+    use datamatrix::verif_hooks as vh;
+    let mut rng = Rng::new(seed ^ 0xBAD);
+    let mut hist: BTreeMap<String, usize> = BTreeMap::new();
+    let n = if thorough { 80000 } else { 6000 };
+    let mut outcomes: BTreeMap<String, usize> = BTreeMap::new();
+    for _ in 0..n {
+        let len = gen_len(&mut rng).min(60);
+        let d = gen_data(&mut rng, len, &mut hist);
+        let modes = gen_modes(&mut rng) | 1;
+        let mask = if rng.chance(1, 3) { tight_single(&mut rng, d.len()) } else { gen_mask(&mut rng, &mut hist) };
+        let mask = if mask == 0 { default_mask() } else { mask };
+        let c = Case { data: d.clone(), modes, mask, macros: false, fnc1: false, eci: None };
+        // the real plan first
+        let base = run_case(&c);
+        let mut plan: Vec<(usize, datamatrix::EncodationType)> = vec![];
+        if base.plan != "noplan" && base.plan != "-" {
+            for t in base.plan.split(',') {
+                let (num, m) = t.split_at(t.len() - 1);
+                plan.push((num.parse().unwrap(), mode_from_char(m.chars().next().unwrap()).unwrap()));
+            }
+        }
+        // mutate
+        let k = 1 + rng.below(3);
+        for _ in 0..k {
+            match rng.below(6) {
+                0 if !plan.is_empty() => { let i = rng.below(plan.len()); plan[i].1 = *rng.pick(&MODES); }
+                1 if !plan.is_empty() => { let i = rng.below(plan.len()); plan[i].0 = plan[i].0.saturating_sub(1 + rng.below(2)); }
+                2 if !plan.is_empty() => { let i = rng.below(plan.len()); plan[i].0 += 1 + rng.below(2); }
+                3 => { let at = rng.below(d.len() + 1); let i = rng.below(plan.len() + 1); plan.insert(i, (at, *rng.pick(&MODES))); }
+                4 if plan.len() > 1 => { let i = rng.below(plan.len()); plan.remove(i); }
+                _ => { plan.sort_by(|a, b| b.0.cmp(&a.0)); }
+            }
+        }
+        vh::set_plan_override(Some(plan.clone()));
+        let mut oc = run_case(&c);
+        vh::set_plan_override(None);
+        oc.plan = plan_str(&Some(plan));
+        let kind = if oc.panicked { "panic" } else if oc.dm.is_some() { "ok" } else { "err" };
+        *outcomes.entry(kind.to_string()).or_insert(0) += 1;
+        if let Some(l) = encrun_line(&c, &oc) {
+            writeln!(out, "{}", l).unwrap();
+        }
+    }
+    for (k, v) in &outcomes {
+        writeln!(out, "# badplan_outcome_{} {}", k, v).unwrap();
+    }
 }
